@@ -245,6 +245,7 @@ struct Slot {
     body: Option<h2::RecvStream>,
     fc: Option<h2::FlowControl>,
     responder: Option<h2::server::SendResponse<Bytes>>,
+    pushed_responder: Option<h2::server::SendPushedResponse<Bytes>>,
     sent_off: usize,
 }
 
@@ -805,17 +806,18 @@ impl ConnH {
                 let status: u16 = status.parse().ok()?;
                 let eos = *eos == "1";
                 let s = self.slot(k)?;
-                match s.responder.as_mut() {
-                    Some(r) => {
-                        let resp = http::Response::builder().status(status).body(()).ok()?;
-                        match r.send_response(resp, eos) {
-                            Ok(ss) => {
-                                s.send = Some(ss);
-                                "ok".into()
-                            }
-                            Err(e) => format!("err:{}", perr(&e)),
-                        }
+                let resp = http::Response::builder().status(status).body(()).ok()?;
+                let r = match (s.responder.as_mut(), s.pushed_responder.as_mut()) {
+                    (Some(r), _) => Some(r.send_response(resp, eos)),
+                    (None, Some(r)) => Some(r.send_response(resp, eos)),
+                    (None, None) => None,
+                };
+                match r {
+                    Some(Ok(ss)) => {
+                        s.send = Some(ss);
+                        "ok".into()
                     }
+                    Some(Err(e)) => format!("err:{}", perr(&e)),
                     None => "nohandle".into(),
                 }
             }
@@ -843,6 +845,23 @@ impl ConnH {
                             // a pushed responder behaves like a responder slot
                             let _ = pushed;
                             format!("ok:{}", sid)
+                        }
+                        Err(e) => format!("err:{}", perr(&e)),
+                    },
+                    None => "nohandle".into(),
+                }
+            }
+            ("cn_pushk", [k, path]) => {
+                // push and KEEP the handle of the promised stream (a new slot): the pushed response is sent later
+                let req = http::Request::builder().method("GET").uri(format!("http://example.com{}", path)).body(()).ok()?;
+                let n = self.slots.len();
+                let s = self.slot(k)?;
+                match s.responder.as_mut() {
+                    Some(r) => match r.push_request(req) {
+                        Ok(pushed) => {
+                            let sid = pushed.stream_id().as_u32();
+                            self.slots.push(Slot { sid, pushed_responder: Some(pushed), ..Default::default() });
+                            format!("ok:{}:{}", n, sid)
                         }
                         Err(e) => format!("err:{}", perr(&e)),
                     },
@@ -927,6 +946,9 @@ impl ConnH {
                 } else if let Some(r) = s.responder.as_mut() {
                     r.send_reset(h2::Reason::from(code));
                     format!("ok cb={}", n)
+                } else if let Some(r) = s.pushed_responder.as_mut() {
+                    r.send_reset(h2::Reason::from(code));
+                    format!("ok cb={}", n)
                 } else {
                     "nohandle".into()
                 }
@@ -938,6 +960,8 @@ impl ConnH {
                 let r = if let Some(ss) = s.send.as_mut() {
                     Some(ss.poll_reset(&mut cx))
                 } else if let Some(r) = s.responder.as_mut() {
+                    Some(r.poll_reset(&mut cx))
+                } else if let Some(r) = s.pushed_responder.as_mut() {
                     Some(r.poll_reset(&mut cx))
                 } else {
                     None
@@ -1105,7 +1129,10 @@ impl ConnH {
                     }
                     "body" => s.body = None,
                     "fc" => s.fc = None,
-                    "responder" => s.responder = None,
+                    "responder" => {
+                        s.responder = None;
+                        s.pushed_responder = None;
+                    }
                     "pushes" => s.pushes = None,
                     _ => {
                         s.send = None;
@@ -1114,6 +1141,7 @@ impl ConnH {
                         s.body = None;
                         s.fc = None;
                         s.responder = None;
+                        s.pushed_responder = None;
                         s.pushes = None;
                     }
                 }
